@@ -51,7 +51,7 @@ NA = {
         "deciding C16 (DESIGN section 4, C16)",
 }
 
-READY = {"C01", "C02", "C03", "C05", "C06", "C12", "C13"}
+READY = {"C01", "C02", "C03", "C04", "C05", "C06", "C09", "C10", "C11", "C12", "C13", "C20"}
 
 def main():
     checks, na = [], []
